@@ -2,6 +2,9 @@ package checks
 
 import (
 	"fmt"
+	"github.com/remieven/ysgo"
+	"github.com/remieven/ysgo/variable"
+	"github.com/remieven/ysgo/verifx/internal/dump"
 	"strings"
 	"time"
 
@@ -29,9 +32,9 @@ func init() {
 
 var stdHost = &yc.HostSpec{
 	Funcs: []yc.FuncSpec{{Name: "probe", Echo: true}, {Name: "note"}},
-	Cmds:  []yc.CmdSpec{{Name: "act"}, {Name: "beep"}, {Name: "later", Deferred: true}, {Name: "laterfail", Deferred: true, Fails: true},
+	Cmds: []yc.CmdSpec{{Name: "act"}, {Name: "beep"}, {Name: "later", Deferred: true}, {Name: "laterfail", Deferred: true, Fails: true},
 		{Name: "laterclose", Deferred: true, ByClose: true}, {Name: "closed", ByClose: true}},
-	Vars:  map[string]yc.Value{"f": yc.Bool(false)},
+	Vars: map[string]yc.Value{"f": yc.Bool(false)},
 }
 
 // walkProgram is the common leaf of the program-quantified checks: render canonically, skip
@@ -268,6 +271,65 @@ func runC01(ctx *report.Ctx) {
 		woHub.MaxSteps = 12
 		woHub.MaxJumps = 8
 		walkProgram(ctx, c, "HUB", p, hs, woHub, nil)
+	})
+
+	// START-AT: a dialogue opened at a node of the host's choosing (RestoreAt of a snapshot the host builds, holding
+	// the node's name only) flows from that node like any other run: every program of the F1b family, every node of
+	// it, every path
+	ctx.Bound("START-AT", "F1b programs (3 nodes, <=3 statements, line/opts/jump/stop), every node as starting point through a host-built snapshot, every path of <=8 steps")
+	part(ctx, "START-AT", -1, func(c *explore.Chooser) {
+		g := &progGen{c: c, rem: 3, kinds: []string{"line", "opts", "jump", "stop"}, maxDepth: 1, maxOpts: 2, maxCl: 1, conds: condsF}
+		p := g.program(3)
+		if len(p.Nodes) < 2 {
+			return
+		}
+		start := p.Nodes[c.Choose(len(p.Nodes), "start-node")]
+		if !c.Mine() {
+			return
+		}
+		srcs := yc.Render(p, nil)
+		if _, div := yc.ModelPaths(p, stdHost, wo); div {
+			ctx.Skip("jump cycle that never yields (no implementation can return)")
+			return
+		}
+		x, e := newC07Runner("R", p, srcs, stdHost)
+		if x == nil {
+			ctx.HarnessError("START-AT: %s", e)
+			return
+		}
+		ctx.Current("START-AT " + start.Title + ": " + scriptOf(srcs))
+		fail := func(detail string) {
+			ctx.Violation(report.Violation{Clause: "start-at-node", Witness: "start at " + start.Title + " :: " + scriptOf(srcs), Detail: detail + " -- operations: " + strings.Join(x.trace, " | "),
+				Choices: c.Choices(), Part: "START-AT", Extra: map[string]any{"scripts": srcs, "operations": x.trace}})
+		}
+		// the snapshot holds the node's name and the host's own variable; no visit counts (nil)
+		snap := &ysgo.Snapshot{CurrentNode: start.Title, Variables: map[string]variable.Value{"f": *variable.NewBoolean(false)}}
+		cs := &c07Snap{real: snap, cp: yc.Checkpoint{Node: start.Title, Vars: map[string]yc.Value{"f": yc.Bool(false)}, Visits: map[string]int{}}, frozen: dump.String(snap), from: "the host"}
+		if d := x.restore(cs); d != "" {
+			if strings.Contains(d, "RestoreAt of a snapshot of the same script failed") {
+				ctx.Skip("a host-built snapshot without visit counts was refused with an error")
+				return
+			}
+			fail(d)
+			return
+		}
+		ctx.AddEvals(1, 1)
+		ctx.AddTraces(1)
+		for i := 0; i < 8; i++ {
+			d := x.step(c.Choose(x.choices(), "choice"))
+			if d == "HORIZON" {
+				break
+			}
+			ctx.AddTransitions(1)
+			ctx.AddStates(1)
+			if d != "" {
+				fail(d)
+				return
+			}
+			if x.prev != nil && x.prev.K == yc.OEnd {
+				break
+			}
+		}
 	})
 
 	// R: distribution of nodes over readers; start node = first node of the first reader
